@@ -6,7 +6,9 @@ Design:  ParLoop.tla - every schedule of a parallel region (threads, dynamic
          data alone; TraceSim.tla states the property for whole runs: the
          configuration is a variable no step depends on.
 Binding: integer/dyadic-exact problems (free surface, wall, periodic box, two
-         fluid arrays) and real-kernel problems are run through
+         fluid arrays, two bodies with per-particle h that meet during the
+         run under a predictor-corrector integrator) and real-kernel problems
+         are run through
          Application.run(argv) under many configurations; per-step and final
          states (hexadecimal floats, by particle identity) are compared by
          TLC: exact problems must agree bit for bit under every
@@ -29,9 +31,9 @@ from mbv.harness import Check, MachineryError, main   # noqa: E402
 NNPS = ['ll', 'box', 'sh', 'esh', 'ci', 'sfc', 'tree', 'comp_tree',
         'strat_hash', 'strat_sfc']
 ZFAM = ('sfc', 'strat_sfc')
-EXACT = ['free', 'wall', 'periodic', 'two']
+EXACT = ['free', 'wall', 'periodic', 'two', 'approach']
 REAL = ['free-real', 'two-real']
-MULTI = ('wall', 'two', 'two-real')
+MULTI = ('wall', 'two', 'two-real', 'approach')
 
 
 def cfg_args(c):
@@ -122,6 +124,17 @@ def run():
                 pick = []
                 for nn in NNPS:
                     pick.append(next(c for c in allc if c['nnps'] == nn))
+                if prob == 'approach':
+                    # the most discriminating problem: every algorithm with
+                    # the cache and several threads, and with re-ordering
+                    for nn in NNPS:
+                        pick.append(next(
+                            c for c in allc if c['nnps'] == nn and c['cache']
+                            and c['threads'] >= 2 and c not in pick))
+                        if nn in REORDER_OK:
+                            pick.append(next(
+                                c for c in allc if c['nnps'] == nn and
+                                c['reorder'] and c not in pick))
                 pick += [c for c in allc if c not in pick][:6]
             else:
                 pick = allc if not real else allc[:160]
@@ -212,8 +225,8 @@ def run():
     ))
     chk.assumptions += [
         'exact problems use a box kernel and integer/dyadic data for 4 steps '
-        'so every floating point operation is exact and summation order '
-        'cannot matter',
+        '(10 steps with prescribed velocities in "approach") so every '
+        'floating point operation is exact and summation order cannot matter',
         'real-kernel problems are compared bit for bit only among runs with '
         '--sort-gids and the same re-ordering frequency, as the statement '
         'promises',
